@@ -71,6 +71,8 @@ def rules_for(pid):
             ("H-register-first", lambda c: RH.h_register_first(c.P, c.E, c.H), 20),
             ("H-complete", lambda c: RH.h_complete(c.P, c.E, c.H, scope_c03), 14),
             ("J6-ready-set-go", lambda c: _only(RJ.j_rules(c.P, c.E), ("J6",)), 4),
+            ("S-fresh-serial", lambda c: RO.s_fresh_serial(c.P, c.E), 2),
+            ("S-remove-and-test", lambda c: RO.s_remove_and_test(c.P, c.E), 1),
             ("D-atomic-latest", lambda c: _only(RJ.d_rules(c.P, c.E, c.H), ("D1", "D2"), ("sample", "debounce")), 2),
         ],
         "C04": [
@@ -78,9 +80,13 @@ def rules_for(pid):
             ("R1", lambda c: RH.r1_retry_drops_first(c.P, c.E, c.H), 3),
             ("H-role-agreement", lambda c: RH.h_role_agreement(c.P, c.E, c.H), 50),
             ("H-complete", lambda c: RH.h_complete(c.P, c.E, c.H, scope_c04), 5),
+            ("T-rxerror", lambda c: RH.rxerror_immutable(c.P, c.E), 6),
+            ("K-fresh-state", lambda c: RK.k_fresh_state(c.P, c.E, lambda root: root.startswith("operators::")
+                                                        and root.split("::")[1] in RECOVERY), 5),
         ],
         "C05": [
             ("O-unsub-order", lambda c: RO.o_unsub_order(c.P, c.E), 10),
+            ("SUB", lambda c: RO.sub_rules(c.P, c.E), 6),
             ("O-typestate", lambda c: RO.o_typestate(
                 c.P, c.E, ("callback after unsubscribe", "is_subscribed not false", "slot refilled")), 10),
             ("S-gate", lambda c: RO.s_gate(c.P, c.E), 4),
@@ -90,12 +96,14 @@ def rules_for(pid):
             ("S-finalize-after-terminal", lambda c: RO.s_finalize_after_terminal(c.P, c.E), 6),
             ("S-finalize-shape", lambda c: RO.s_finalize_shape(c.P, c.E), 4),
             ("R1", lambda c: RH.r1_retry_drops_first(c.P, c.E, c.H), 3),
+            ("S-fresh-serial", lambda c: RO.s_fresh_serial(c.P, c.E), 2),
         ],
         "C07": [
             ("L1", lambda c: RL.l1_reentrancy(c.P, c.E, c.H), 40),
             ("L2", lambda c: RL.l2_leaf_locks(c.P, c.E), 15),
             ("L4", lambda c: RL.l4_producer_polling(c.P, c.E), 6),
             ("F-no-guard-call", lambda c: RO.f_no_guard_call(c.P, c.E), 3),
+            ("S-finalize-after-terminal", lambda c: RO.s_finalize_after_terminal(c.P, c.E), 6),
         ],
         "C08": [
             ("Q", lambda c: RQ.q_rules(c.P, c.E), 22),
@@ -118,6 +126,7 @@ def rules_for(pid):
             ("SUBSCRIBE-ON", lambda c: RS.subscribe_on_rule(c.P, c.E), 2),
             ("H-complete", lambda c: RH.h_complete(c.P, c.E, c.H, scope_c09), 2),
             ("S-gate", lambda c: RO.s_gate(c.P, c.E), 4),
+            ("Q", lambda c: RQ.q_rules(c.P, c.E), 22),
         ],
         "C10": [
             ("J", lambda c: RJ.j_rules(c.P, c.E), 18),
@@ -126,13 +135,15 @@ def rules_for(pid):
         "C11": [
             ("D", lambda c: RJ.d_rules(c.P, c.E, c.H), 4),
             ("S-remove-and-test", lambda c: RO.s_remove_and_test(c.P, c.E), 1),
+            ("S-fresh-serial", lambda c: RO.s_fresh_serial(c.P, c.E), 2),
             ("F-atomic-take", lambda c: RO.f_atomic_take(c.P, c.E), 3),
         ],
         "C12": [
-            ("J", lambda c: _only(RJ.j_rules(c.P, c.E), ("J2", "J3", "J6")), 12),
+            ("J", lambda c: _only(RJ.j_rules(c.P, c.E), ("J2", "J3", "J6", "J7")), 12),
         ],
         "C13": [
             ("P", lambda c: RJ.p_rules(c.P, c.E), 14),
+            ("J", lambda c: _only(RJ.j_rules(c.P, c.E), ("J1", "J2", "J5")), 8),
         ],
         "C15": [
             ("T1", lambda c: RS.t1_abort_wired(c.P, c.E), 5),
